@@ -7,6 +7,7 @@ import Driver.Headers
 import Driver.Peg
 import Driver.Registry
 import Driver.Thrift
+import Driver.ThriftBytes
 import Driver.Rpc
 import Driver.OutBuf
 import Driver.Processor
@@ -20,11 +21,12 @@ import Driver.Topic
 import Driver.NatsServer
 import Driver.Determinism
 import Driver.PubSub
+import Driver.Receivers2
 
 open Driver
 
 def steppers : List (String → List String → Option String) :=
-  [stepHeaders, stepRegistry, stepThrift, stepRpc, stepOutBuf, stepProcessor, stepContext, stepContextHeap, stepMiddleware, stepAdapter, stepAudit, stepPeg, stepNatsServer, stepTopic, stepDeterminism, stepCompile, stepPubSub]
+  [stepHeaders, stepRegistry, stepThrift, stepThriftBytes, stepRpc, stepOutBuf, stepProcessor, stepContext, stepContextHeap, stepMiddleware, stepAdapter, stepAudit, stepPeg, stepNatsServer, stepTopic, stepDeterminism, stepCompile, stepPubSub, stepReceivers2]
 
 def step (line : String) : String :=
   match (line.splitOn " ").filter (· ≠ "") with
